@@ -84,6 +84,13 @@ def derived_queries(want, is_float):
             if b - a >= 2:
                 qs += [(a + b) // 2, b - 1]
         qs.append(hi)
+        # queries need not be integers: a depth between two stored frame numbers (below zero too)
+        if all(abs(v) < 2 ** 50 for v in (lo, hi)):
+            qs += [lo - 0.5, lo + 0.5, hi - 0.5, hi + 0.25]
+            for a, b in zip(want[:40], want[1:41]):
+                qs += [a + 0.5, a - 0.25]
+                if b - a >= 2:
+                    qs.append(b - 0.5)
     seen, ret = set(), []
     for q in qs:
         if q not in seen:
@@ -657,3 +664,4 @@ def exhaustive_note(tier, total):
             'exhaustive_subdomains': [
                 'RLE: every integer sequence over 0..%d of length 0..%d, every index, every query -1..%d' % (A - 1, L, A),
                 'RLEType01: every record list with gaps and frame counts in {1,2,3} of length 0..%d, every frame' % Lt]}
+RULE += '  Round 16: integer sequences are also queried with fractional numbers (below zero too).'
